@@ -138,12 +138,12 @@ LEAVES = ["int", "str", "float", "bool", "bytes", "decimal.Decimal", "datetime.d
           "typing.Callable", "typing.Callable[..., int]", "typing.Callable[[int], str]", "collections.abc.Callable[[int], str]",
           "type", "type[int]", "typing.Type[DC]", "G", "G[int]", "NoHints", "NoHintsInit", "NoHintsChild", "NoHintsDefaults", "DC", "E", "NT", "TD",
           "typing.Literal[1, 'a']", "typing.Iterable", "collections.deque", "SelfSet", "DCNoInit", "Sparse", "AL_NoHints", "AL_listAny", "AL_Lit", "TBN", "NT_NoHints",
-          "list[Any]", "CallDC", "CallPlain", "CallNT"]
+          "list[Any]", "CallDC", "CallPlain", "CallNT", "typing.Iterator", "collections.abc.Iterator", "typing.Generator"]
 EXTENDED = {"Any", "object", "list", "dict", "tuple", "set", "frozenset", "typing.List", "typing.Dict", "typing.Tuple",
             "typing.Set", "typing.Sequence", "typing.Mapping", "T", "TB", "TC", "typing.Callable", "typing.Callable[..., int]",
             "typing.Callable[[int], str]", "collections.abc.Callable[[int], str]", "type", "type[int]", "typing.Type[DC]", "G",
             "G[int]", "NoHints", "NoHintsInit", "NoHintsChild", "NoHintsDefaults", "typing.Iterable", "collections.deque", "SelfSet", "DCNoInit", "Sparse", "AL_NoHints", "AL_listAny", "AL_Lit", "TBN",
-            "NT_NoHints", "list[Any]"}
+            "NT_NoHints", "list[Any]", "typing.Iterator", "collections.abc.Iterator", "typing.Generator"}
 # classes without any annotation: the parameters of __init__ are their (unresolvable) members
 HINTLESS = {"NoHintsInit": ["a", "b"], "NoHintsChild": ["a", "b"], "NoHintsDefaults": ["name", "retries", "label", "ratio", "flags", "when"]}
 PASSTHROUGH = {"Any", "object", "T", "typing.Callable", "typing.Callable[..., int]", "typing.Callable[[int], str]",
@@ -158,6 +158,7 @@ UNARY = {
 BINARY = {"tuple2": "tuple[{0}, {1}]", "Union": "typing.Union[{0}, {1}]", "dict": "dict[{0}, {1}]", "pipe": "({0}) | ({1})",
           "fields2": "FIELD2({0}, {1})"}
 
+_BARE_TYPING = re.compile(r"typing\.(Tuple|List|Dict|Set)(?![\[\w])")
 _NS = None
 _counter = itertools.count()
 
@@ -398,6 +399,21 @@ def check_annotation(expr, col, passthrough=None, nontrivial=False, source="exha
             if any(g is not o for g, o in zip(got, objs)):
                 col.violation("pass-through", dict(case, direction=direction), f"{direction}({expr}): members of a hint-less class are not the identical objects: {got!r:.120}",
                               bucket=f"hintless|{direction}|identity")
+    # the unparameterised typing spelling of a builtin collection is that collection (`typing.Tuple` is `tuple`): same outcomes
+    twin = _BARE_TYPING.sub(lambda m_: m_.group(1).lower(), expr)
+    if twin != expr and "G[" not in expr and "|" not in expr and "Union[" not in expr:   # (`set | set` is no union at all)   # (an instance of a user generic remembers the alias it was made through: __orig_class__)
+        col.ev()
+        col.label("spelling-twin-compared")
+        try:
+            T2 = build(twin)
+        except Exception:
+            T2 = None
+        if T2 is not None:
+            tl.clear_all()
+            bt = battery(T2)
+            tl.clear_all()
+            if _norm(bt) != _norm(b3):
+                col.violation("spelling-independent", dict(case, twin=twin), f"{expr} vs {twin}: {_first_diff(_norm(b3), _norm(bt))}", bucket="bare-typing-alias")
     if nontrivial and len(col.samples) < core.MAX_SAMPLES and col.evaluations % 211 == 0:
         col.sample({"annotation": expr, "battery_outcomes": [(a, b, c[0] if isinstance(c, tuple) else c) for a, b, c in b1[:6]]})
 
